@@ -37,6 +37,18 @@ CHECKS = {
         technique="deterministic simulation: Set histories with malformed arguments and loader faults at any position vs (config, first-error) model built from the library's own primitives",
         text="Histories of 1..8 (thorough 14) FlagValue.Set calls for key=value flags and file flags (simulated file table behind the FileLoader seam) with option sets drawn from PathSep, VarExp, the five merge policies, a field policy and MetaData; bare keys, empty values, empty keys, malformed values and I/O / nil-config / unknown-extension loader faults at any position, with further arguments after the fault. After every Set: Config() equals the sequential merge with the flag's options, Error() is and stays the first error, String() is the JSON of the accumulated config, the default config is written through.",
         note="The model composes the real NewFrom/Merge/parse.Value: the check decides the refinement statement, not the semantics of the building blocks (those are C01/C17)."),
+    "C13": dict(engine="E3-unpack", design="6 (C13), 5 (E3)", cat="fault_enumeration",
+        technique="deterministic simulation with exhaustive single-fault enumeration: every callback invocation (Validate / Unpack / tag validator) and every consumed setting x every data-fault kind of a generated (type, pre-fill, config) case is failed once; pre/post snapshot of the target",
+        text="Per case a struct type is generated with reflect.StructOf (plus hand-written named types) from 34 field kinds - primitives, pointers, validated leaves, the Unpacker forms, slices with merge tags, fixed arrays, maps, interface{}, *Config capture, InitDefaults types, nested/pointer/slice/map-of structs, inline, unexported and ignored fields - together with a pre-filled value and a config mentioning a drawn subset of the fields, optionally produced by a history. The fault-free Unpack must yield exactly 'pre-fill overwritten at the mentioned fields, lists combined by the tag policy, InitDefaults applied'. Then EVERY fault point of the case is enumerated (not sampled): each callback invocation returns an error once; each consumed setting is corrupted once per applicable kind (unparsable, wrong type, out of range, wrong array length, object/primitive confusion, nested, required removed). Each must make Unpack fail and leave the struct passed in field-for-field as it was (pointers, maps and slices by identity, the exemption for shared map / pointee contents as stated).",
+        note="Exhaustive per case over the fault points of that case; the cases themselves are sampled. The expected-value computation in harness/unpack/case.go is written from the statement."),
+    "C14": dict(engine="E3-unpack", design="6 (C14), 5 (E3)", cat="fault_enumeration",
+        technique="deterministic simulation with exhaustive single-fault enumeration on configs produced by histories; the faulted setting's path and source are known from the generator, not from the implementation's parent links",
+        text="Same enumeration as C13 with configs that are direct, produced by a history that moves list elements (decoy removed from list fronts; lists assembled by a PrependValues merge) or re-homed through SetChild/Merge, with and without MetaData. For every single fault the error must be a ucfg.Error with non-nil Reason and Class, must name as a whole token the dotted path the generator assigns to the faulted setting (element paths for list/map elements; for a value that did not come from the config the enclosing absent setting may be named), and must mention the source when the faulted value was loaded with metadata. The typing half is additionally a monitor in every other engine (foreign observations).",
+        note="As C13."),
+    "C04": dict(engine="E3-unpack", design="6 (C04), 5 (E3)", cat="fault_enumeration",
+        technique="deterministic simulation: an injected tag validator and instrumented Validate methods observe every traversal path; every validator invocation is enumerated as a fault point",
+        text="SCOPED (DESIGN.md 6, C04). In scope: (a) no validator is skipped on any traversal path - after every successful Unpack the registered 'simcheck' tag validator must have seen the final value of every reachable field whose kind a built-in validator can reject, and every reachable value with a Validate method must have been validated, whether the value came from the config, the pre-fill or InitDefaults, through pointers, slices (incl. elements kept by append/prepend/merge), arrays, maps and inline fields; (b) every validator invocation of the case, failed once, makes Unpack fail with an error naming the field. Out of scope: the arithmetic of the five built-in validators on one value (pure).",
+        note="Struct-kind fields present in the config do not get tag validators run and no built-in validator can reject a struct value: not demanded."),
     "C09": dict(engine="E4-order", design="6 (C09), 5 (E4)", cat="exploration",
         technique="deterministic simulation: the simulator owns every map enumeration in the library (AST-inserted seam); the same call is run from identical states under sorted, reversed and tape-drawn orders and the outcomes compared (metamorphic, no model)",
         text="Each case generates the arguments of one call - NewFrom or Merge on trees whose dictionaries are spelled nested, dotted, partly each, with lists as dotted index keys and (when it is not a known finding) one setting defined twice; or Unpack / FlattenedKeys / CompareConfigs / NewFrom on configs whose settings reference each other through generated expressions, Env configs and resolvers, with at most one failing setting when error kinds are compared - and executes it K=6 (thorough 24) times from identical initial states (the setup is rebuilt under the canonical order) under different enumeration schedules decided at all rewritten range-over-map and MapKeys sites. All outcomes must agree: success vs failure, kind of error (root reason), canonical resulting data, shape of the resulting internal graph.",
@@ -47,7 +59,7 @@ CHECKS = {
         note="Outcomes the statements leave open are not compared (DESIGN.md Appendix A): empty resolver answers to plain references, operators applied to containers, and values that depend on the library's per-call cache after an absorbed cycle."),
     "C08": dict(engine="E2-varexp", design="6 (C08), 5 (E2)", cat="exploration",
         technique="deterministic simulation: reference graphs incl. cycles read through every entry point under a step budget (bounded liveness) and simulator-chosen enumeration order, vs an explicit in-progress-set model",
-        text="Same engine as C02 with reference graphs rich in self references, chains, diamonds, repeated uses and references inside defaults and names. Oracles: every read returns within the step budget (2*10^6 instrumented events; the largest legitimate operation seen is reported); a cycle is reported exactly when the model re-enters a reference that is still being evaluated and neither a default nor a resolver that knows the name absorbs it; evaluations that never re-enter succeed with the substituted value (no false cycles).",
+        text="Same engine as C02 with reference graphs rich in self references, chains, diamonds, repeated uses and references inside defaults and names. Oracles: every read returns within the step budget (3*10^5 instrumented events, plus an 8 s wall-clock backstop per operation; the largest legitimate operation seen is reported); a cycle is reported exactly when the model re-enters a reference that is still being evaluated and neither a default nor a resolver that knows the name absorbs it; evaluations that never re-enter succeed with the substituted value (no false cycles).",
         note="As C02."),
 }
 
@@ -97,11 +109,8 @@ m = {
 }
 claimed = set(CHECKS)
 PENDING = {
-    "C04": "check under construction (engine E3); not claimed until it is registered here",
     "C07": "check under construction (monitors of all engines + E5 lexer schedules); not claimed until it is registered here",
     "C11": "check under construction (engine E5); not claimed until it is registered here",
-    "C13": "check under construction (engine E3); not claimed until it is registered here",
-    "C14": "check under construction (engine E3); not claimed until it is registered here",
 }
 for p, r in sorted(PENDING.items()):
     if p not in claimed:
